@@ -906,8 +906,12 @@ def run_faults(ck):
         total = sum((1 if k == "push" else a) for p in sc for k, a in p)
         ks = sorted(set([1, 2, 3, 5, 8, 9, 11, 13, 16, 17, 18, 31, 33, 34, total - 1, total] + ([ck.rng.randrange(1, total + 1) for _ in range(6)] if quick else list(range(1, min(total, 260) + 1)))))
         plans = [("VERIF_FAULT_CTOR", k) for k in ks if 1 <= k <= total] + [("VERIF_FAULT_ALLOC", k) for k in range(1, 9)]
+        # no fault, one more thread that only observes while the growers run: [0, size()) and [begin(), end()) name allocated storage at every moment
+        plans += [("VERIF_OBSERVER", 3), ("VERIF_OBSERVER", 6)]
         for var, k in plans:
             env = dict(os.environ); env[var] = str(k)
+            if var != "VERIF_OBSERVER" and (k % 2 == 0):
+                env["VERIF_OBSERVER"] = "2"                # ... and also while a fault strikes
             rc, out, err = sh([exe, "rand", str(ck.seed * 100 + si), "3" if quick else "12"], input=text, timeout=300, env=env)
             runs += 1
             fired += out.count("faults_fired 1")
@@ -924,7 +928,9 @@ def run_faults(ck):
     keyed, seen = [], set()
     for b in bad:
         kind = "crash" if b["what"].startswith("CRASH") else ("deadlock" if "DEADLOCK" in b["what"] else "monitor")
-        if b["fault"][0] == "VERIF_FAULT_CTOR":
+        if b["fault"][0] == "VERIF_OBSERVER":
+            key = "observer:%s" % kind
+        elif b["fault"][0] == "VERIF_FAULT_CTOR":
             key = "fault:ctor-throw:%s" % kind
         else:
             key = "fault:alloc-throw:%s:%s" % ("first-block" if b["fault"][1] == 1 else "segment", kind)
